@@ -63,3 +63,11 @@ Theorem C11_accepted_barrier_traces_are_model_runs :
   forall tr n s xy, paccept_all p_init tr = Some (MBar n s, xy) -> BReach n s.
 Proof. exact accepted_barrier_trace_reaches. Qed.
 Print Assumptions C11_accepted_barrier_traces_are_model_runs.
+
+(* the product acceptor accepts only traces the Condvar acceptor accepts (API records read as the uninterpreted code 70): its Condvar
+   component and the Condvar-level bookkeeping move exactly as CondvarAccept.accept_ev says, so C11_accepted_traces_are_model_runs and
+   every Condvar theorem apply to the Condvar component of every state along an accepted Barrier / WaitGroup trace *)
+Theorem C11_product_acceptor_refines_condvar_acceptor :
+  forall tr p p', paccept_all p tr = Some p' -> accept_all (proj p) (map ev70 tr) = Some (proj p').
+Proof. exact accept_all_refines_condvar. Qed.
+Print Assumptions C11_product_acceptor_refines_condvar_acceptor.
